@@ -40,6 +40,15 @@ _CONTAINER_UP = {'list': ['seq', 'Sequence'], 'List': ['seq', 'TSequence'], 'Mut
 _MAP_UP = {'dict': 'MutableMapping', 'Dict': 'TMapping', 'MutableMapping': 'Mapping', 'OrderedDict': 'dict',
            'defaultdict': 'dict', 'DefaultDict': 'Dict', 'ChainMap': 'MutableMapping'}
 _CLS_UP = {'VDerived': 'VBase', 'bool': 'int'}
+# callable hints: parameters narrow, returns widen (statically; at run time every callable conforms to each of them)
+_CALL_UP = {'Callable[[VBase],VDerived]': ['Callable[[VDerived],VBase]', 'Callable[...,VBase]', 'Callable[...,object]', 'Callable'],
+            'Callable[[VDerived],VBase]': ['Callable[...,VBase]', 'Callable[...,object]', 'Callable'],
+            'Callable[...,VBase]': ['Callable[...,object]', 'Callable'],
+            'Callable[[],int]': ['Callable[...,int]', 'Callable[...,object]', 'Callable'],
+            'Callable[...,int]': ['Callable[...,object]', 'Callable'],
+            'Callable[[int,str],bool]': ['Callable[...,int]', 'Callable[...,object]', 'Callable'],
+            'Callable[[int],str]': ['Callable[...,object]', 'Callable'],
+            'Callable[...,object]': ['Callable'], 'Callable': ['Callable[...,object]']}
 
 
 @st.composite
@@ -53,6 +62,8 @@ def widen(draw, node):
         opts += ['object']
     if k == 'lit':
         opts += ['littype', 'lit+', 'lookalike']
+    if k == 'shallow' and node[1] in _CALL_UP:
+        opts += ['callup', 'callup']
     if k == 'union':
         opts += ['member']
     if k in ('seq', 'reit') and node[1] in _CONTAINER_UP:
@@ -83,6 +94,8 @@ def widen(draw, node):
         return ['union', [node, other] if draw(st.booleans()) else [other, node], draw(st.sampled_from(['U', 'P']))]
     if m == 'base':
         return ['cls', _CLS_UP[node[1]]]
+    if m == 'callup':
+        return ['shallow', draw(st.sampled_from(_CALL_UP[node[1]]))]
     if m == 'object':
         return ['any', 'object']
     if m == 'littype':
